@@ -965,6 +965,7 @@ func main() {
 	if err := os.WriteFile(yaml, []byte("o2:\n  components: {}\n"), 0o644); err != nil {
 		panic(err)
 	}
+	backendYaml = yaml
 	fileSvc, err = local.NewService("file://" + yaml)
 	if err != nil {
 		panic(err)
@@ -1017,6 +1018,12 @@ func main() {
 					panic(err)
 				}
 				cases = append(cases, runHist(f, in, kinds[i]))
+			case strings.HasPrefix(kinds[i], "file-lives"):
+				var in livesInput
+				if err := json.Unmarshal(raw, &in); err != nil {
+					panic(err)
+				}
+				cases = append(cases, runFileLives(in, kinds[i]))
 			case kinds[i] == "file-serial":
 				var in fileInput
 				if err := json.Unmarshal(raw, &in); err != nil {
@@ -1036,9 +1043,14 @@ func main() {
 		}
 	} else {
 		rg := gen.NewRand(o.Seed)
-		rSched, rHost, rEnv, rFile, rHist := rg.Fork(), rg.Fork(), rg.Fork(), rg.Fork(), rg.Fork()
+		rSched, rHost, rEnv, rFile, rHist, rLives := rg.Fork(), rg.Fork(), rg.Fork(), rg.Fork(), rg.Fork(), rg.Fork()
 		for _, c := range corpus() {
 			cases = append(cases, runSched(f, c.clock0, c.k, c.steps, nil, 0, "sched-corpus"))
+		}
+		// the file backend across deaths and restarts of the process (a number that is not larger
+		// than an earlier one is monitor code 11)
+		for _, l := range livesCorpus() {
+			cases = append(cases, runFileLives(l, "file-lives-corpus"))
 		}
 		// every START attempt draws a fresh number: histories of starts on real environments
 		for _, h := range histCorpus() {
@@ -1054,11 +1066,12 @@ func main() {
 			f0 := c.file0
 			cases = append(cases, runFileSerial(&f0, c.k))
 		}
-		nSched := o.N * 42 / 100
+		nSched := o.N * 36 / 100
 		nHost := o.N * 8 / 100
-		nEnv := o.N * 18 / 100
-		nHist := o.N * 16 / 100
-		nFile := o.N - nSched - nHost - nEnv - nHist
+		nEnv := o.N * 16 / 100
+		nHist := o.N * 14 / 100
+		nLives := o.N * 12 / 100
+		nFile := o.N - nSched - nHost - nEnv - nHist - nLives
 		for i := 0; i < nSched; i++ {
 			k := 1 + rSched.Intn(8)
 			if rSched.Chance(1, 3) {
@@ -1093,6 +1106,9 @@ func main() {
 		}
 		for i := 0; i < nHist; i++ {
 			cases = append(cases, runHist(f, genHist(rHist), "hist"))
+		}
+		for i := 0; i < nLives; i++ {
+			cases = append(cases, runFileLives(genLives(rLives), "file-lives"))
 		}
 		for i := 0; i < nFile; i++ {
 			var file0 *string
